@@ -1,6 +1,6 @@
 import TinsModel.Wire.L2.ThFamily
 import TinsModel.Wire.L2.ThChain
-import TinsModel.Wire.L2.ThChainReparse
+import TinsModel.Wire.L2.ThChainFixpoint
 /-
   Per-layer and family-level theorems of the L2 family for the four wire properties.  Index:
 
@@ -15,5 +15,7 @@ import TinsModel.Wire.L2.ThChainReparse
   ThChain.lean       l2_chain_serialize_total, l2_chain_frame over the registry's `sems`
   ThChainView.lean   `ViewEq` = the C03 comparison of two stacks (Lean counterpart of `Driver.WireSpec.sameView`)
   ThChainStep.lean   `Stackable` (what the protocols can express), <cls>_step / l2_step: the one-layer step of whole-packet C03
-  ThChainReparse.lean  l2_chain_reparse: whole-packet C03 for stacks of any depth (induction over the stack), examples
+  ThChainReparse.lean  l2_chain_reparse: whole-packet C03 (re-parse preserves the view) for stacks of any depth, examples
+  ThChainFixpoint.lean serializeInto_wire (closed form of PDU::serialize), l2_chain_reserialize_fixpoint_partial /
+                     _fails: whole-packet C03, second half (the second serialization reproduces the bytes)
 -/
